@@ -91,20 +91,20 @@ func (r *Rec) Yield() {
 	}
 }
 
-func (r *Rec) Move(x, y float64)   { r.eff("move:" + f(x) + "," + f(y)) }
-func (r *Rec) Line(x, y float64)   { r.eff("line:" + f(x) + "," + f(y)) }
-func (r *Rec) Rect(x, y float64)   { r.eff("rect:" + f(x) + "," + f(y)) }
-func (r *Rec) Circle(x float64)    { r.eff("circle:" + f(x)) }
-func (r *Rec) Width(x float64)     { r.eff("width:" + f(x)) }
-func (r *Rec) Color(s string)      { r.eff("color:" + s) }
-func (r *Rec) Clear(s string)      { r.eff("clear:" + s) }
-func (r *Rec) Stroke(s string)     { r.eff("stroke:" + s) }
-func (r *Rec) Fill(s string)       { r.eff("fill:" + s) }
-func (r *Rec) Linecap(s string)    { r.eff("linecap:" + s) }
-func (r *Rec) Text(s string)       { r.eff("text:" + s) }
+func (r *Rec) Move(x, y float64)         { r.eff("move:" + f(x) + "," + f(y)) }
+func (r *Rec) Line(x, y float64)         { r.eff("line:" + f(x) + "," + f(y)) }
+func (r *Rec) Rect(x, y float64)         { r.eff("rect:" + f(x) + "," + f(y)) }
+func (r *Rec) Circle(x float64)          { r.eff("circle:" + f(x)) }
+func (r *Rec) Width(x float64)           { r.eff("width:" + f(x)) }
+func (r *Rec) Color(s string)            { r.eff("color:" + s) }
+func (r *Rec) Clear(s string)            { r.eff("clear:" + s) }
+func (r *Rec) Stroke(s string)           { r.eff("stroke:" + s) }
+func (r *Rec) Fill(s string)             { r.eff("fill:" + s) }
+func (r *Rec) Linecap(s string)          { r.eff("linecap:" + s) }
+func (r *Rec) Text(s string)             { r.eff("text:" + s) }
 func (r *Rec) Gridn(u float64, c string) { r.eff("gridn:" + f(u) + "," + c) }
-func (r *Rec) Poly(v [][]float64)  { r.eff(fmt.Sprint("poly:", v)) }
-func (r *Rec) Dash(v []float64)    { r.eff(fmt.Sprint("dash:", v)) }
+func (r *Rec) Poly(v [][]float64)        { r.eff(fmt.Sprint("poly:", v)) }
+func (r *Rec) Dash(v []float64)          { r.eff(fmt.Sprint("dash:", v)) }
 func (r *Rec) Ellipse(x, y, rx, ry, rot, a, b float64) {
 	r.eff(fmt.Sprint("ellipse:", x, y, rx, ry, rot, a, b))
 }
